@@ -20,11 +20,11 @@
 #endif
 #define NT 8
 enum { T_INT = 0, T_DOUBLE, T_BV, T_BN, T_FUN, T_A, T_B, T_UNDEF };
-extern struct verif_ti g__ZTIi, g__ZTId;
-static struct verif_ti ti_A = {0, "*A"}, ti_B = {0, "*B"}, ti_unknown = {0, "*unknown"};
+/* all typeinfo objects compare by address (names start with *), like the ones the translator emits: no strcmp */
+static struct verif_ti ti_int = {0, "*i"}, ti_double = {0, "*d"}, ti_A = {0, "*A"}, ti_B = {0, "*B"}, ti_unknown = {0, "*unknown"};
 struct TI { char* ti; char* bare; uint32_t flags; uint32_t pad_; };
 _Static_assert(sizeof(struct TI) == SZ_Type_Info && offsetof(struct TI, bare) == OFF_TI_bare_type_info && offsetof(struct TI, flags) == OFF_TI_flags, "Type_Info layout");
-static char* tobj(int t) { return t == T_INT ? (char*)&g__ZTIi : t == T_DOUBLE ? (char*)&g__ZTId : t == T_BV ? TI_BOXED_VALUE_OBJ : t == T_BN ? TI_BOXED_NUMBER_OBJ : t == T_FUN ? TI_FUNCTION_OBJ : t == T_A ? (char*)&ti_A : t == T_B ? (char*)&ti_B : (char*)&ti_unknown; }
+static char* tobj(int t) { return t == T_INT ? (char*)&ti_int : t == T_DOUBLE ? (char*)&ti_double : t == T_BV ? TI_BOXED_VALUE_OBJ : t == T_BN ? TI_BOXED_NUMBER_OBJ : t == T_FUN ? TI_FUNCTION_OBJ : t == T_A ? (char*)&ti_A : t == T_B ? (char*)&ti_B : (char*)&ti_unknown; }
 static void set_ti(struct TI* x, int t, int is_const) { x->ti = tobj(t); x->bare = tobj(t); x->flags = (t == T_UNDEF ? TIF_undef : 0) | ((t == T_INT || t == T_DOUBLE) ? TIF_arithmetic : 0) | (is_const ? TIF_const : 0); x->pad_ = 0; }
 struct PFB { char* vptr; struct vec3 types; int32_t arity; uint8_t has_arith; uint8_t pad_[3]; };
 _Static_assert(sizeof(struct PFB) == SZ_PFB && offsetof(struct PFB, types) == OFF_PFB_types && offsetof(struct PFB, arity) == OFF_PFB_arity, "Proxy_Function_Base layout");
